@@ -267,6 +267,26 @@ func scenarios() []scenario {
 		return out
 	}})
 
+	// --- an address destroyed, funded again and re-created within the same block: the new contract inherits the funds
+	{
+		runtime := asm().Op(oCALLV).PushU(6).Op(byte(kvm.JUMPI), oCALLER, oSD, oJDEST, oSTOP).B // destroys itself when called without value
+		init := asm().PushBytes(runtime).PushU(0).Op(byte(kvm.MSTORE)).Return(uint64(32-len(runtime)), uint64(len(runtime))).B
+		child := crypto.CreateAddress2(c(0), common.BigToHash(big.NewInt(1)), crypto.Keccak256(init))
+		add(scenario{name: "destroy-fund-recreate", contracts: [][]byte{create(asm(), init, 50, true).Op(oSTOP).B}, balances: []int64{100000},
+			txs: func(w *txgen.World, e *env) []*txgen.TxSpec {
+				return []*txgen.TxSpec{
+					plain(toC(0), 10, 400000, 1), // CREATE2: the child exists with 50
+					plain(&child, 0, 200000, 1),  // the child destroys itself (funds to the sender)
+					plain(&child, 77, 60000, 1),  // the empty address is funded
+					plain(toC(0), 10, 400000, 1), // CREATE2 again at the same address: 77 + 50
+					plain(&child, 0, 200000, 1),  // destroyed again: 127 to the sender
+					plain(&child, 5, 60000, 1),   // funded
+					plain(&child, 6, 60000, 1),   // and again
+					plain(toC(0), 10, 400000, 1), // third incarnation: 11 + 50
+				}
+			}})
+	}
+
 	// --- odd recipients
 	add(scenario{name: "precompile-and-self", contracts: [][]byte{
 		call(asm(), pre1, 5, 0).Op(oSTOP).B,
